@@ -67,14 +67,26 @@ package common
 //@   modifies nothing
 //@   mustfail canary: !ok
 
+//@ # with the Bezout relation s2*pa + s1*pb = 1 the combination a*s1*pb + b*s2*pa differs from a by a multiple of pa and from b by a multiple of pb
+//@ lemma crtident(a, b, pa, pb, s1, s2): s2 * pa + s1 * pb == 1 ==> a * s1 * pb + b * s2 * pa - a == pa * (s2 * (b - a)) && a * s1 * pb + b * s2 * pa - b == pb * (s1 * (a - b))
+//@ lemma multiple(k, p): p > 0 ==> (k * p) % p == 0
 //@ func Crt
 //@   property C19
 //@   nonlinear
 //@   safety
 //@   requires a != nil && pa != nil && b != nil && pb != nil && val(pa) > 0 && val(pb) > 0 && gcd(val(pa), val(pb)) == 1
 //@   ensures range: result != nil && fresh(result) && 0 <= val(result) && val(result) < val(pa) * val(pb)
-//@ # not decided: the congruences result = a (mod pa), result = b (mod pb) - the solvers do not find the nonlinear argument
+//@   ensures first: (val(result) - val(a)) % val(pa) == 0
+//@   ensures second: (val(result) - val(b)) % val(pb) == 0
 //@   modifies nothing
+//@   assert at Int).Mod bezout: val(s2) * val(pa) + val(s1) * val(pb) == 1 && val($2) == val(pa) * val(pb) && val($1) == val(a) * val(s1) * val(pb) + val(b) * val(s2) * val(pa)
+//@   assert at Int).Mod diffa: val($1) - val(a) == val(pa) * (val(s2) * (val(b) - val(a)))
+//@   assert at Int).Mod diffb: val($1) - val(b) == val(pb) * (val(s1) * (val(a) - val(b)))
+//@   assert at Int).Mod rema: val($1) % val($2) - val(a) == (val(s2) * (val(b) - val(a)) - val(pb) * (val($1) / val($2))) * val(pa)
+//@   assert at Int).Mod remb: val($1) % val($2) - val(b) == (val(s1) * (val(a) - val(b)) - val(pa) * (val($1) / val($2))) * val(pb)
+//@   apply at Int).Mod crtident(val(a), val(b), val(pa), val(pb), val(s1), val(s2))
+//@   apply at Int).Mod multiple(val(s2) * (val(b) - val(a)) - val(pb) * (val($1) / val($2)), val(pa))
+//@   apply at Int).Mod multiple(val(s1) * (val(a) - val(b)) - val(pa) * (val($1) / val($2)), val(pb))
 
 //@ global SmallPrimesProduct != nil && val(SmallPrimesProduct) == 16294579238595022365
 //@ global forall i in 0..len(SmallPrimes) :: SmallPrimes[i] >= 3
